@@ -496,7 +496,13 @@ int ares_dup(ares_channel_t **dest, const ares_channel_t *src)
   (*dest)->sock_config_cb            = src->sock_config_cb;
   (*dest)->sock_config_cb_data       = src->sock_config_cb_data;
   memcpy(&(*dest)->sock_funcs, &(src->sock_funcs), sizeof((*dest)->sock_funcs));
-  (*dest)->sock_func_cb_data         = src->sock_func_cb_data;
+  /* The legacy socket functions are reached through trampolines whose user
+   * data is the channel they belong to: the copy must name itself there, not
+   * the channel it was copied from (which may be destroyed first) */
+  (*dest)->sock_func_cb_data =
+    (src->legacy_sock_funcs != NULL && src->sock_func_cb_data == (void *)src)
+      ? (void *)*dest
+      : src->sock_func_cb_data;
   (*dest)->legacy_sock_funcs         = src->legacy_sock_funcs;
   (*dest)->legacy_sock_funcs_cb_data = src->legacy_sock_funcs_cb_data;
   (*dest)->server_state_cb           = src->server_state_cb;
